@@ -49,6 +49,37 @@ class Batch:
         self.impl.append(impl_answer)
         self.meta.append(meta)
 
+    TAGS = {"ser", "lit", "list", "dict", "opt", "union", "tuple", "obj", "ptr"}
+    ATOMS = {"int", "float", "bool", "str", "null", "unknown"}
+
+    def distribution(self):
+        """what the explored cases look like: IR constructors in the implementation's answers, error classes, sizes"""
+        tags, errs, sizes = {}, {}, []
+
+        def walk(x):
+            if isinstance(x, list):
+                if x and isinstance(x[0], str) and x[0] in self.TAGS:
+                    tags[x[0]] = tags.get(x[0], 0) + 1
+                for y in x:
+                    walk(y)
+            elif isinstance(x, dict):
+                for y in x.values():
+                    walk(y)
+            elif isinstance(x, str) and x in self.ATOMS:
+                tags[x] = tags.get(x, 0) + 1
+
+        for a in self.impl:
+            if "err" in a:
+                errs[a["err"]] = errs.get(a["err"], 0) + 1
+            else:
+                walk(a["ok"])
+        import json as _json
+        for r in self.requests[:2000]:
+            sizes.append(len(_json.dumps(r.get("in", ""))))
+        sizes.sort()
+        return {"ir_constructors_in_answers": tags, "error_classes": errs,
+                "request_input_bytes": {"min": sizes[0], "median": sizes[len(sizes) // 2], "max": sizes[-1]} if sizes else {}}
+
     def run(self):
         answers = lean.run_batch(self.requests)
         dis = []
